@@ -55,6 +55,8 @@ def write_replay(pid, tier, seed, v):
     body["mode"] = v.get("replay_mode", "case")
     if body["mode"] == "unit":
         body["unit"] = _jsonable(v["unit"])
+    if body["mode"] == "history":
+        body["units"] = _jsonable(v["history_units"])
     sha = hashlib.sha1(json.dumps(body["case"], sort_keys=True).encode()).hexdigest()[:12]
     path = os.path.join(d, sha + ".json")
     with open(path, "w") as f:
@@ -124,6 +126,15 @@ def main(argv=None):
                 if keep in acc.viol_count:   # report the recorded violation only (the unit may contain others)
                     acc.violations = [v for v in acc.violations if v["signature"] == keep][:1]
                     acc.viol_count = type(acc.viol_count)({keep: acc.viol_count[keep]})
+            elif body.get("mode") == "history" and body.get("units"):
+                # violation that depends on state left in the library by earlier units of the same worker process: the replay artefact is that
+                # worker's unit sequence up to and including the failing unit, executed in order in this fresh process
+                for u_ in body["units"]:
+                    module.run_unit(u_, acc)
+                keep = body.get("signature")
+                if keep in acc.viol_count:
+                    acc.violations = [v for v in acc.violations if v["signature"] == keep][:1]
+                    acc.viol_count = type(acc.viol_count)({keep: acc.viol_count[keep]})
             else:
                 module.check_case(body["case"], acc)
             n_units = 1
@@ -167,10 +178,15 @@ def main(argv=None):
             # alone; if no recorded case reproduces alone (the violation depends on the calls made before it), the whole unit a
             # case was found in.  Several recorded cases of the signature are tried; the first that reproduces is reported.
             v = None
-            for mode in ("case", "unit"):
-                for cand in cands[:6 if mode == "case" else 3]:
+            for mode in ("case", "unit", "history"):
+                for cand in cands[:6 if mode == "case" else (3 if mode == "unit" else 2)]:
                     if mode == "unit" and cand.get("unit") is None:
                         continue
+                    if mode == "history":
+                        if not cand.get("history_idx") or len(cand["history_idx"]) < 2:
+                            continue
+                        all_units = module.units(tier, seed)
+                        cand["history_units"] = [all_units[i] for i in cand["history_idx"]]
                     cand["replay_mode"] = mode
                     path = write_replay(pid, tier, seed, cand)
                     env = dict(os.environ, VERIF_KEEP_EVIDENCE="1")
@@ -179,6 +195,8 @@ def main(argv=None):
                     if r.returncode == 1 and ("signature=%s" % sig) in r.stdout:
                         v = cand
                         break
+                    if r.returncode == 2 and mode == "history":
+                        continue     # a unit sequence that cannot be re-run alone (e.g. it relies on tables prepared by other workers): not reproduced
                     if r.returncode == 2:
                         print("HARNESS-ERROR replay (%s) of a violation crashed:\n%s" % (mode, (r.stdout + r.stderr)[-1500:]))
                         scratch.cleanup()
@@ -195,11 +213,11 @@ def main(argv=None):
             print("  " + v["message"][:1500])
         for sig, cand in unreproduced:
             # observed during the exploration but not reproducible from a fresh process (depends on state left by other units)
-            print("NOTE unreproduced signature=%s count=%d (observed in the exploration, not reproducible from one unit in a fresh process)" % (
+            print("NOTE unreproduced signature=%s count=%d (observed in the exploration, not reproducible in a fresh process from a case, its unit or its worker's unit sequence)" % (
                 sig, acc.viol_count[sig]))
         if not replays:
-            print("HARNESS-ERROR no observed violation reproduced in a fresh process (recorded cases alone, then their units): %s" % [s_ for s_, _ in unreproduced])
-            print(json.dumps(_jsonable({k: x for k, x in unreproduced[0][1].items() if k != "unit"}), indent=1)[:3000])
+            print("HARNESS-ERROR no observed violation reproduced in a fresh process (recorded cases alone, then their units, then their workers' unit sequences): %s" % [s_ for s_, _ in unreproduced])
+            print(json.dumps(_jsonable({k: x for k, x in unreproduced[0][1].items() if k not in ("unit", "history_idx", "history_units")}), indent=1)[:3000])
             scratch.cleanup()
             return 2
         rc = 1
